@@ -20,6 +20,22 @@ from .tape import Tape  # noqa: F401
 logging.getLogger("asyncio").setLevel(logging.CRITICAL)
 
 
+def _pin_zarr_threads():
+    """Zarr encodes/decodes the chunks of one array call in a private thread pool and issues
+    the store writes in completion order - a source of nondeterminism inside a dependency.
+    The simulator owns that dimension instead (spread-commit mode permutes a task's writes)."""
+    import zarr
+
+    zarr.config.set({"codec_pipeline.max_workers": 1})
+
+
+_pin_zarr_threads()
+
+from .loop import install_deterministic_zarr_loop  # noqa: E402
+
+ZARR_LOOP = install_deterministic_zarr_loop()
+
+
 def reset_globals(seed: int = 0):
     """Reset process-global state so that a run does not depend on what ran
     before it in the same interpreter."""
@@ -45,6 +61,7 @@ def reset_globals(seed: int = 0):
         pass
     random.seed(seed)
     simstore.reset_registry()
+    ZARR_LOOP.reset_counter()
 
 
 def set_counters(n: int):
